@@ -633,6 +633,10 @@ class FnReader:
             self.add(dest, leaf, set(base) | set(ctx), "", wrap)
 
 
+FNS_CACHE = {}
+ORDER_SENSITIVE_DERIVED = {}
+
+
 def read_io_tables(wntr):
     path = os.path.join(vlib.REPO, "wntr", "epanet", "io.py")
     tree = ast.parse(open(path).read())
@@ -660,6 +664,7 @@ def read_io_tables(wntr):
             raise BrokenTie("wntr/epanet/io.py has no function %s" % fname)
         r = FnReader(fns[fname], consts, d, sec, sigs)
         rows += r.read_writer() if d == "w" else r.read_reader()
+    FNS_CACHE["fns"] = fns
     return rows, fns, consts
 
 
@@ -674,6 +679,73 @@ ORDER_SENSITIVE = ["[TITLE]", "[CURVES]", "[PATTERNS]", "[CONTROLS]", "[RULES]",
                    # SO FAR -- a file with those lines before UNITS raises AttributeError ('NoneType' has no 'is_traditional');
                    # WNTR's writer puts UNITS first, EPANET itself does not care about the order
                    "[OPTIONS]"]
+
+
+def derive_order_sensitive(fns, secs):
+    """sections whose reader depends on the order of its lines, read off the reader's code: (a) no per-line loop (the whole
+    section is handed to a parser); inside the loop (b) an `.append/.add/.remove` on anything but a list created in the
+    same iteration, (c) a variable that lives across iterations and is both read and assigned, (d) an attribute
+    (`self.flow_units`, an option) that the function both assigns and reads.  -> {section: reason}"""
+    sec_fn = {}
+    for (f, d, sec) in FUNCS:
+        if d == "r" and f.startswith("_read_"):
+            sec_fn.setdefault("[%s]" % sec, f)
+    sec_fn.update({"[TITLE]": "_read_title", "[REPORT]": "_read_report", "[LABELS]": "_read_labels", "[BACKDROP]": "_read_backdrop",
+                   "[CONTROLS]": "_read_controls", "[RULES]": "_read_rules"})
+    out = {}
+    for sec in secs:
+        fn = fns.get(sec_fn.get(sec, ""))
+        if fn is None:
+            raise BrokenTie("no reader function known for section %s" % sec)
+        loops = [n for n in ast.walk(fn) if isinstance(n, ast.For) and "self.sections" in ast.unparse(n.iter)]
+        if not loops:
+            out[sec] = "the section is handed over as a whole (%s)" % fn.name
+            continue
+        loop = loops[0]
+        inside = set(id(n) for n in ast.walk(loop))
+        local_lists = {t.id for n in ast.walk(loop) if isinstance(n, ast.Assign) for t in n.targets if isinstance(t, ast.Name)}
+        local_lists -= {t.id for n in ast.walk(fn) if isinstance(n, ast.Assign) and id(n) not in inside for t in n.targets if isinstance(t, ast.Name)}
+        why = None
+        for n in ast.walk(loop):
+            if isinstance(n, ast.Call) and isinstance(n.func, ast.Attribute) and n.func.attr in ("append", "add", "remove", "extend", "insert"):
+                recv = n.func.value
+                if not (isinstance(recv, ast.Name) and recv.id in local_lists):
+                    why = "`%s.%s(...)` keeps the lines in file order" % (ast.unparse(recv)[:40], n.func.attr)
+                    break
+        if why is None:
+            pre = {t.id for n in ast.walk(fn) if isinstance(n, (ast.Assign, ast.AugAssign)) and id(n) not in inside
+                   for t in (n.targets if isinstance(n, ast.Assign) else [n.target]) if isinstance(t, ast.Name)}
+            assigned_in = {t.id for n in ast.walk(loop) if isinstance(n, (ast.Assign, ast.AugAssign))
+                           for t in (n.targets if isinstance(n, ast.Assign) else [n.target]) if isinstance(t, ast.Name)}
+            read_in = {n.id for n in ast.walk(loop) if isinstance(n, ast.Name) and isinstance(n.ctx, ast.Load)}
+            carried = sorted(v for v in pre & assigned_in & read_in)
+            if carried:
+                why = "`%s` is carried from line to line" % carried[0]
+        if why is None:
+            stores = {ast.unparse(t) for n in ast.walk(fn) if isinstance(n, ast.Assign) for t in n.targets if isinstance(t, ast.Attribute)}
+            loads = {ast.unparse(n) for n in ast.walk(loop) if isinstance(n, ast.Attribute) and isinstance(n.ctx, ast.Load)}
+            both = sorted(x for x in stores & loads if x.startswith("self.") or x.startswith("opts.") or x.startswith("wn.options"))
+            if both:
+                why = "`%s` is set by one line and used by another" % both[0]
+        if why:
+            out[sec] = why
+    return out
+
+
+def derive_times_dispatch(fns):
+    """the special cases of `_read_times`: (index of the word tested, word, attribute of options.time assigned)"""
+    fn = fns["_read_times"]
+    out = []
+    for n in ast.walk(fn):
+        if isinstance(n, ast.If) and isinstance(n.test, ast.Compare) and len(n.test.ops) == 1 and isinstance(n.test.ops[0], ast.Eq):
+            m = re.match(r"^current\[(\d)\]\.upper\(\)$", ast.unparse(n.test.left))
+            c = n.test.comparators[0]
+            tgt = [t for s_ in n.body if isinstance(s_, ast.Assign) for t in s_.targets if isinstance(t, ast.Attribute) and ast.unparse(t).startswith("opts.time.")]
+            if m and isinstance(c, ast.Constant) and tgt:
+                out.append((int(m.group(1)), c.value, tgt[-1].attr))
+    if not out or not any(isinstance(n, ast.Call) and isinstance(n.func, ast.Name) and n.func.id == "setattr" for n in ast.walk(fn)):
+        raise BrokenTie("_read_times: no `current[i].upper() == 'WORD'` dispatch / generic setattr found")
+    return out
 
 
 def read_sections_and_order(path=None):
@@ -1168,8 +1240,13 @@ def gen_schema_inp_lean(wntr, rows, kw):
     secs, order = read_sections_and_order()
     out.append("/-- `_INP_SECTIONS` -/\ndef inpSections : List String := %s\n" % _ll(secs))
     out.append("/-- the sections in the order in which `InpFile.read` calls their readers (ast) -/\ndef readOrder : List String := %s\n" % _ll(order))
-    out.append("/-- sections whose reader depends on the order of the lines inside (hand-written; tied by the permutation oracle) -/")
-    out.append("def orderSensitive : List String := %s\n" % _ll(ORDER_SENSITIVE))
+    global ORDER_SENSITIVE_DERIVED
+    ORDER_SENSITIVE_DERIVED = derive_order_sensitive(FNS_CACHE["fns"], secs)
+    out.append("/-- sections whose reader depends on the order of the lines inside, with the reason read off the reader's code (ast) -/")
+    out.append("def orderSensitive : List (String × String) := [\n%s]\n" % ",\n".join("  (%s, %s)" % (_ls(k), _ls(v)) for k, v in ORDER_SENSITIVE_DERIVED.items()))
+    out.append("/-- the hand-written expectation (harness/props/c12.py ORDER_SENSITIVE) -/\ndef orderSensitiveExpected : List String := %s\n" % _ll(ORDER_SENSITIVE))
+    out.append("/-- the special cases of `_read_times` (ast): (index of the word tested, word, attribute); every other line sets `<w0>_<w1>` -/")
+    out.append("def timesDispatch : List (Nat × String × String) := [%s]\n" % ", ".join("(%d, %s, %s)" % (i, _ls(w), _ls(a)) for i, w, a in derive_times_dispatch(FNS_CACHE["fns"])))
     od = wntr.network.WaterNetworkModel().options.to_dict()
     out.append("/-- keys of `Options.to_dict()` per group (reflection) -/")
     out.append("def optionKeys : List (String × List String) := [\n%s]\n" % ",\n".join(
@@ -1849,7 +1926,7 @@ class C12(Check):
             secs_present = [b for b in re.findall(r"^\[[A-Z]+\]", t1raw, re.M)]
             cand = []
             for sname in secs_present:
-                if sname not in ORDER_SENSITIVE and sname != "[END]":
+                if sname not in (ORDER_SENSITIVE_DERIVED or ORDER_SENSITIVE) and sname != "[END]":
                     body = t1raw.split(sname, 1)[1].split("\n[", 1)[0]
                     if sum(1 for l in body.splitlines()[1:] if l.split(";")[0].split()) >= 2:
                         cand.append(sname)
